@@ -131,3 +131,16 @@ package mocktikv
 //@   ensures expected: !ok && pessimisticAction == kvrpcpb.PrewriteRequest_DO_PESSIMISTIC_CHECK ==> result != nil && batch.n == old(batch.n)
 //@   at return assert locked: result == nil && !(ok && dec.lock.startTS == startTS && dec.lock.op != kvrpcpb.Op_PessimisticLock) ==> batch.n == old(batch.n) + 1
 //@   ensures refused: result != nil ==> batch.n == old(batch.n)
+
+// pessimisticLockMutation (decision rules): a lock of another transaction refuses the request; the transaction's own
+// PREWRITE lock refuses it too (the reference, TiKV, does not let a pessimistic lock replace a prewrite lock and the
+// value it carries); the conflict check and the (re)writing of the pessimistic lock happen only over no lock or over the
+// transaction's own pessimistic lock.
+//@ func (*MVCCLevelDB) pessimisticLockMutation
+//@   prop C12
+//@   may-panic
+//@   opaque-callee newIterator Release checkConflictValue MarshalBinary mvccEncode getDB Detect Fingerprint64
+//@   modifies leveldb.Batch.n of batch, leveldb.Batch.puts of batch
+//@   at call(checkConflictValue) assert ownpessimistic: alreadyLocked ==> dec.lock.startTS == lctx.startTS && dec.lock.op == kvrpcpb.Op_PessimisticLock
+//@   ensures foreign: alreadyLocked && dec.lock.startTS != startTS ==> result != nil && batch.n == old(batch.n)
+//@   ensures ownprewrite: alreadyLocked && dec.lock.startTS == startTS && dec.lock.op != kvrpcpb.Op_PessimisticLock ==> result != nil && batch.n == old(batch.n)
